@@ -62,10 +62,10 @@ def fmtRes (n : Nat) (c : Case) (r : Option (Result Nat Float n)) : String :=
   match r with
   | none => "res out-of-fuel"
   | some r =>
-    let cbs := r.log.toList.filterMap fun e => match e with
+    let cbs := r.m.log.toList.filterMap fun e => match e with
       | .cb xo x y smp => some (s!"{fmtF xo},{fmtF x}:{fmtFs y.toArray}:" ++ "/".intercalate (smp.toList.map fun v => fmtFs v.toArray))
       | _ => none
-    let odes := r.log.toList.filterMap fun e => match e with
+    let odes := r.m.log.toList.filterMap fun e => match e with
       | .ode j t y => some (j, t, y)
       | _ => none
     -- first call whose arguments differ from the recorded run
@@ -74,7 +74,7 @@ def fmtRes (n : Nat) (c : Case) (r : Option (Result Nat Float n)) : String :=
       | some t', some y' => !(bitsEq t t' && (List.range y'.size).all (fun i => bitsEq (y.toArray.getD i 0) (y'.getD i 0)))
       | _, _ => true
     let mm := match mism with | some (j, _, _) => toString j | none => "-"
-    s!"res {statusStr r.status} h={fmtF r.h} nfev={r.cnt.ode} nstep={r.cnt.total} nacc={r.cnt.accepted} nrej={r.cnt.rejected} calls={r.ncalls} mismatch={mm} cbs={cbs.length} " ++ "|".intercalate cbs
+    s!"res {statusStr r.status} h={fmtF r.h} nfev={r.m.cnt.ode} nstep={r.m.cnt.total} nacc={r.m.cnt.accepted} nrej={r.m.cnt.rejected} calls={r.m.ncalls} mismatch={mm} cbs={cbs.length} " ++ "|".intercalate cbs
 
 def mkR23 (c : Case) (n : Nat) (posneg hmax : Float) (atol rtol : Vector Float n) : R23Params Float n where
   xend := c.xend
